@@ -6,7 +6,8 @@
    where self._decoder = io.IncrementalNewlineDecoder(codecs.getincrementaldecoder(enc)(errors='strict'), translate=True).
    Modelled here:
      (a) the incremental byte decoder: utf-8 strict = the state machine of Utf8.v (state: the incomplete sequence seen so
-         far, as bytes still needed / bits collected / bounds of the next byte; an invalid byte raises at once, an incomplete
+         far, as bytes still needed / bits collected / bounds of the next byte; an invalid byte raises at once - except that
+         CPython defers the error for a piece ending in ED A0..BF to the next call, see decode_chunk_py - an incomplete
          sequence raises at final=True; U+FEFF is delivered like any other character - the codec is 'utf-8', not 'utf-8-sig');
          latin-1 = the identity on byte values, stateless;
      (b) IncrementalNewlineDecoder(decoder, translate=True).decode(input, final), state [pendingcr]:
@@ -26,15 +27,45 @@ Inductive codec := CUtf8 | CLatin1.
 
 (* ------------------------------------------------------------------ (a) the incremental byte decoder *)
 
-(* decoder.decode(piece, final): None = UnicodeDecodeError *)
-Definition byte_decode (e : codec) (st : dstate) (piece : bytes) (final : bool) : option (str * dstate) :=
-  match e with
-  | CLatin1 => Some (decode_latin1 piece, st)
-  | CUtf8 =>
-      match decode_chunk st piece with
-      | None => None
-      | Some (s, st1) => if final && negb (decode_flush st1) then None else Some (s, st1)
+(* One departure of CPython's strict incremental utf-8 decoder from the state machine of Utf8.v (found by the correspondence run,
+   unicodeobject.c: "Truncated surrogate code in range D800-DFFF"): when a non-final piece ENDS with ED A0..BF - the first two
+   bytes of an encoded surrogate, which the state machine rejects at the second byte - CPython keeps the two bytes pending and
+   raises at the next non-empty piece (whatever it contains) or at the flush.  The error is deferred, never dropped.
+   [decode_chunk_py] is decode_chunk with that exception: the flag says that such a pair is now held. *)
+Fixpoint decode_chunk_py (st : dstate) (bs : bytes) : option (str * dstate * bool) :=
+  match bs with
+  | [] => Some ([], st, false)
+  | b :: r =>
+      match decode_byte st b with
+      | None =>
+          match r with
+          | [] => if Nat.eqb (d_needed st) 2 && N.eqb (d_upper st) 159 && (160 <=? b)%N && (b <=? 191)%N
+                  then Some ([], st, true) else None
+          | _ => None
+          end
+      | Some (o, st1) =>
+          match decode_chunk_py st1 r with
+          | None => None
+          | Some (s, st2, sg) => Some (match o with Some c => c :: s | None => s end, st2, sg)
+          end
       end
+  end.
+
+(* decoder.decode(piece, final): None = UnicodeDecodeError; [surr]: a truncated surrogate pair is held from an earlier piece *)
+Definition byte_decode (e : codec) (st : dstate) (surr : bool) (piece : bytes) (final : bool) : option (str * dstate * bool) :=
+  match e with
+  | CLatin1 => Some (decode_latin1 piece, st, surr)
+  | CUtf8 =>
+      if surr then
+        match piece with
+        | [] => if final then None else Some ([], st, true)
+        | _ => None
+        end
+      else
+        match decode_chunk_py st piece with
+        | None => None
+        | Some (s, st1, sg) => if final && (sg || negb (decode_flush st1)) then None else Some (s, st1, sg)
+        end
   end.
 
 (* the whole byte string at once: bytes.decode(enc) *)
@@ -91,14 +122,15 @@ Fixpoint nl_trace (pendingcr : bool) (calls : list (str * bool)) : list (str * b
 
 (* ------------------------------------------------------------------ (c) the composition *)
 
-Record tlstate := { tl_dec : dstate; tl_pendingcr : bool }.
-Definition tl_init : tlstate := {| tl_dec := d_init; tl_pendingcr := false |}.
+Record tlstate := { tl_dec : dstate; tl_surr : bool; tl_pendingcr : bool }.
+Definition tl_init : tlstate := {| tl_dec := d_init; tl_surr := false; tl_pendingcr := false |}.
 
 (* IncrementalNewlineDecoder(decoder(enc), translate=True).decode(piece, final) *)
 Definition tl_decode (e : codec) (st : tlstate) (piece : bytes) (final : bool) : option (str * tlstate) :=
-  match byte_decode e (tl_dec st) piece final with
+  match byte_decode e (tl_dec st) (tl_surr st) piece final with
   | None => None
-  | Some (s, d1) => let '(o, p1) := nl_decode (tl_pendingcr st) s final in Some (o, {| tl_dec := d1; tl_pendingcr := p1 |})
+  | Some (s, d1, sg) =>
+      let '(o, p1) := nl_decode (tl_pendingcr st) s final in Some (o, {| tl_dec := d1; tl_surr := sg; tl_pendingcr := p1 |})
   end.
 
 (* the text pieces of a list of raw reads, the flush piece last; None when a decode call raises *)
@@ -117,10 +149,11 @@ Fixpoint text_layer_from (e : codec) (st : tlstate) (raws : list bytes) : option
 Definition text_layer (e : codec) (raws : list bytes) : option (list str) := text_layer_from e tl_init raws.
 
 (* the same run observed call by call (what the correspondence run compares with the real objects): for every decode call
-   that returned, (output, pendingcr afterwards, continuation bytes the byte decoder still waits for); the flag says whether
-   the run ended without an exception (false: the call after the listed ones raised) *)
+   that returned, (output, pendingcr afterwards, continuation bytes the byte decoder still waits for - one when it holds a
+   truncated surrogate pair); the flag says whether the run ended without an exception (false: the call after the listed
+   ones raised) *)
 Definition obs := (str * bool * nat)%type.
-Definition obs_of (o : str) (st : tlstate) : obs := (o, tl_pendingcr st, d_needed (tl_dec st)).
+Definition obs_of (o : str) (st : tlstate) : obs := (o, tl_pendingcr st, if tl_surr st then 1%nat else d_needed (tl_dec st)).
 Fixpoint text_layer_trace_from (e : codec) (st : tlstate) (raws : list bytes) : list obs * bool :=
   match raws with
   | [] => match tl_decode e st [] true with
